@@ -289,9 +289,19 @@ class Body:
         return out
 
     def discr_switch_of_call(self, call_bb):
-        """switch on discriminant(<result of the call ending call_bb>) (possibly through a downcast-free copy)"""
+        """switch on discriminant(<result of the call ending call_bb>) (possibly through a downcast-free copy, or after the
+        value travelled through a helper's `Ok(..)` and the caller's `?`: every alternative the tested value can stand for, under
+        the projections applied to it, is that call's result)"""
         def pred(o):
-            return o[0] == "discr" and o[1][0] == "call" and o[1][4] == call_bb
+            if o[0] == "discr" and o[1][0] == "call" and o[1][4] == call_bb:
+                return True
+            if o[0] == "discr" and isinstance(o[1], tuple) and o[1] and o[1][0] in ("field", "downcast", "phi"):
+                try:
+                    alts = [strip_refs(a) for a in self.alternatives(o[1])]
+                except Exception:
+                    return False
+                return bool(alts) and all(a[0] == "call" and len(a) > 4 and a[4] == call_bb for a in alts)
+            return False
         r = self.switch_on(pred)
         if len(r) > 1:
             # drop elaboration re-tests the same discriminant later: take the test that dominates the others
@@ -300,8 +310,32 @@ class Body:
                 # exit paths that bypass the call re-test a drop flag: keep tests dominated by the call, earliest first
                 cand = [x for x in r if self.dominates(call_bb, x[0])]
                 first = [x for x in cand if all(y[0] in self.reach(x[0]) for y in cand)]
+            if len(first) != 1:
+                # the call sits in an inlined helper with a second exit (its `?`): it does not dominate the test; take the test
+                # from which all the others are reachable and which none of them reaches back
+                back = self.back_edges()
+                first = [x for x in r if all(y[0] in self.reach(x[0], avoid_edges=back) for y in r)]
+            if len(first) != 1:
+                # tests on different exits (the value's own match, and a drop-flag re-test on an error exit): the one closest to
+                # the call in the forward CFG
+                dist = {call_bb: 0}
+                work = [call_bb]
+                back = self.back_edges()
+                while work:
+                    u = work.pop(0)
+                    for v in self.succs()[u]:
+                        if (u, v) not in back and v not in dist:
+                            dist[v] = dist[u] + 1
+                            work.append(v)
+                ds = sorted((dist[x[0]], i) for i, x in enumerate(r) if x[0] in dist)
+                if ds and (len(ds) == 1 or ds[0][0] < ds[1][0]):
+                    first = [r[ds[0][1]]]
             return first[0] if len(first) == 1 else None
         return r[0] if len(r) == 1 else None
+
+    def _via_back_edge(self, a, b2):
+        """is b2 reachable from a only by taking a loop back edge"""
+        return b2 not in self.reach(a, avoid_edges=self.back_edges())
 
     def try_of_call(self, call_bb):
         """for `call()?`: (branch call bb, switch bb, continue target, break target) or None"""
